@@ -94,6 +94,50 @@ def check_count_arith(ctx, rp, q, count_names):
     return n
 
 
+def check_tstep_dims(ctx, rp, q):
+    """the length given to the TSTEP dimension, temporaries substituted: a floor division, an int() of a guarded quotient, or a name
+    that check_count_arith decides; a bare true division of counts makes a cut file show a fractional number of steps (the dimension is
+    truncated, the time flags are not)"""
+    m = ctx.src.mod(rp)
+    fn = m.func(q)
+    where = 'src/PseudoNetCDF/%s %s' % (rp, q)
+    n = 0
+    for c in ast.walk(fn):
+        if not (isinstance(c, ast.Call) and isinstance(c.func, ast.Attribute) and c.func.attr == 'createDimension' and len(c.args) >= 2 and isinstance(c.args[0], ast.Constant)
+                and c.args[0].value == 'TSTEP'):
+            continue
+        st = api.stmt_of(c)
+        env = _paths.dominating_env(fn, st, keep=KEEP)
+        v = _paths.subst(c.args[1], env)
+        n += 1
+        truediv = [x for x in ast.walk(v) if isinstance(x, ast.BinOp) and isinstance(x.op, ast.Div)]
+        anydiv = [x for x in ast.walk(v) if isinstance(x, ast.BinOp) and isinstance(x.op, (ast.Div, ast.FloorDiv))]
+        # an integrality test on the quotient (or a remainder test on its operands) that raises, before the dimension is created
+        guarded = False
+        qt = norm((truediv or anydiv or [v])[0])
+        for s2 in iter_stmts(fn.body):
+            if isinstance(s2, ast.If) and s2.lineno <= st.lineno and any(isinstance(x, ast.Raise) for x in s2.body):
+                t = norm(_paths.subst(s2.test, _paths.dominating_env(fn, s2, keep=KEEP)))
+                if ('%' in t and any(norm(x.right) in t for x in anydiv)) or (truediv and qt in t):
+                    guarded = True
+        # is anything taken from the record table per step *without* the count (a stride over all records)?  Then a partial step
+        # shows whatever the count is rounded to; where every access reshapes with the truncated count, numpy raises on access instead
+        strided = [x for x in ast.walk(fn) if (isinstance(x, ast.Call) and dotted(x.func) == 'slice' and len(x.args) == 3 and isinstance(x.args[1], ast.Constant) and x.args[1].value is None) or
+                   (isinstance(x, ast.Slice) and x.step is not None and x.upper is None and not isinstance(x.step, ast.Constant))]
+        if guarded:
+            ctx.ok('R-PARTIALRAISE', '%s:TSTEP' % q, where, 'a remainder / integrality test raises before the TSTEP dimension is created')
+        elif strided and anydiv:
+            ctx.violation(Finding('R-PARTIALRAISE', rp, q, st, 'the TSTEP dimension gets the quotient %s, the per-step values are taken with a stride over all records, and nothing raises when the records are '
+                                  'not a whole number of steps: for a file cut at a record boundary inside a time step the dimension is truncated to the whole steps while the time flags still '
+                                  'include the partial one' % qt[:60]), oid='%s:TSTEP' % q)
+        elif truediv:
+            ctx.undec('R-PARTIALRAISE', '%s:TSTEP' % q, where, 'unguarded true quotient %s: a cut at a record boundary inside a step opens with a truncated count; every access reshapes with that count '
+                      '(numpy raises on access, run-time fact)' % qt[:50])
+        else:
+            ctx.ok('R-WHOLEBLOCKS', '%s:TSTEP' % q, where, 'TSTEP length %s has no true division' % norm(c.args[1])[:40])
+    return n
+
+
 def check_blocksize(ctx, fmt, cls):
     rp = CAMX + fmt + '/Memmap.py'
     m = ctx.src.mod(rp)
@@ -176,6 +220,9 @@ def run(ctx):
     n += check_count_arith(ctx, CAMX + 'temperature/Memmap.py', 'temperature.__init__', ('records', 'rowsXcols'))
     n += check_count_arith(ctx, CAMX + 'one3d/Memmap.py', 'one3d.__init__', ('cols',))
     n += check_count_arith(ctx, CAMX + 'wind/Memmap.py', 'wind.__init__', ('times', 'lays'))
+    for rp_, q_ in ((CAMX + 'temperature/Memmap.py', 'temperature.__init__'), (CAMX + 'one3d/Memmap.py', 'one3d.__init__'), (CAMX + 'wind/Memmap.py', 'wind.__init__'),
+                    (CAMX + 'uamiv/Memmap.py', 'uamiv.__readheader'), (CAMX + 'lateral_boundary/Memmap.py', 'lateral_boundary.__readheader')):
+        check_tstep_dims(ctx, rp_, q_)
     n += check_count_arith(ctx, 'geoschemfiles/_bpch.py', 'bpch1.__init__', ('itemcount',))
     # one3d stores its count in an attribute
     o3 = ctx.src.mod(CAMX + 'one3d/Memmap.py').func('one3d.__init__')
